@@ -75,14 +75,15 @@ func init() {
 				p.PProbe = 0.08
 				p.AllModules = true
 			})
-			if seed%4 == 3 {
-				// a quarter of the runs: session ends, creations and joins overlapping at lock
+			if seed%3 == 2 {
+				// a third of the runs (short ones): session ends, creations and joins overlapping at lock
 				// granularity (a reused id must never cut a live session off); no second execution
 				p.Policies = []string{"rand", "pct"}
 				p.PBlock = 0.35
 				p.PClose = 0.12
 				p.BlockOps = []string{"close", "close", "newjoin", "newjoin", "joiner", "switch"}
-				p.PEndgame = 0.4
+				p.PEndgame = 0.5
+				p.MinSteps, p.MaxSteps = 6, 28
 				sc := GenHistory(seed, p)
 				sc.Prop = "C03"
 				return sc
